@@ -3224,6 +3224,9 @@ where
                 let packet_id = packet.packet_id();
                 if self.pid_pubrec.remove(&packet_id) {
                     self.store.erase(ResponsePacket::V3_1_1Pubrec, packet_id);
+                    // The exchange continues with PUBREL/PUBCOMP: keep its id owned so that a
+                    // non-persistent close releases it even if the PUBREL was never sent
+                    self.pid_pubcomp.insert(packet_id);
                     if self.auto_pub_response && self.status == ConnectionStatus::Connected {
                         let pubrel = v3_1_1::GenericPubrel::<PacketIdType>::builder()
                             .packet_id(packet_id)
@@ -3258,6 +3261,9 @@ where
                     self.store.erase(ResponsePacket::V5_0Pubrec, packet_id);
                     let reason_code = packet.reason_code();
                     if reason_code.is_none() || reason_code.unwrap() == PubrecReasonCode::Success {
+                        // The exchange continues with PUBREL/PUBCOMP: keep its id owned so that a
+                        // non-persistent close releases it even if the PUBREL was never sent
+                        self.pid_pubcomp.insert(packet_id);
                         if self.auto_pub_response && self.status == ConnectionStatus::Connected {
                             let pubrel = v5_0::GenericPubrel::<PacketIdType>::builder()
                                 .packet_id(packet_id)
